@@ -24,6 +24,8 @@ pub struct RecConnector {
     pub log: Arc<StdMutex<RecLog>>,
     pub tasks: Arc<StdMutex<Vec<tokio::task::JoinHandle<()>>>>,
     pub reply: Vec<u8>, // bytes the fake upstream sends back before closing
+    pub fail_msg: StdMutex<String>, // error text when `fail` is set
+    pub local_v6: AtomicBool,      // report an IPv6 outgoing socket (as a real connector does with set_local_addr)
 }
 
 #[async_trait]
@@ -31,10 +33,15 @@ impl Connector for RecConnector {
     async fn connect(self: Arc<Self>, _state: Arc<crate::GlobalState>, ctx: ContextRef) -> Result<(), Error> {
         self.log.lock().unwrap().connects.push(self.name.clone());
         if self.fail.load(Ordering::SeqCst) {
-            return Err(err_msg("recording connector: upstream refused"));
+            return Err(err_msg(self.fail_msg.lock().unwrap().clone()));
         }
         let (a, mut b) = tokio::io::duplex(1 << 20);
-        ctx.write().await.set_server_stream(make_buffered_stream(a));
+        let (local, remote): (std::net::SocketAddr, std::net::SocketAddr) = if self.local_v6.load(Ordering::SeqCst) {
+            ("[::1]:40001".parse().unwrap(), "[::1]:3128".parse().unwrap())
+        } else {
+            ("127.0.0.1:40001".parse().unwrap(), "127.0.0.1:3128".parse().unwrap())
+        };
+        ctx.write().await.set_server_stream(make_buffered_stream(a)).set_local_addr(local).set_server_addr(remote);
         let log = self.log.clone();
         let name = self.name.clone();
         let reply = self.reply.clone();
@@ -97,7 +104,7 @@ pub fn world(conns: &[(String, Vec<Feature>)], history_size: usize) -> World {
     }
     let mut recs = vec![];
     for (name, feats) in conns {
-        let r = Arc::new(RecConnector { name: name.clone(), feats: feats.clone(), fail: AtomicBool::new(false), log: log.clone(), tasks: tasks.clone(), reply: vec![] });
+        let r = Arc::new(RecConnector { name: name.clone(), feats: feats.clone(), fail: AtomicBool::new(false), log: log.clone(), tasks: tasks.clone(), reply: vec![], fail_msg: StdMutex::new("recording connector: upstream refused".into()), local_v6: AtomicBool::new(false) });
         st.connectors.insert(name.clone(), r.clone());
         recs.push(r);
     }
@@ -211,4 +218,63 @@ pub fn outcome_line(o: &Outcome) -> String {
     };
     let up = if o.upstream.is_empty() { "-".to_string() } else { o.upstream.iter().map(|(n, b)| format!("{}<{}", hex(n.as_bytes()), hex(b))).collect::<Vec<_>>().join(",") };
     format!("{} nconnect={} up={} ev={}", decision, o.connects.len(), up, if o.events.is_empty() { "-".into() } else { o.events.join("+") })
+}
+
+// ------------------------------------------------------------------ real listeners on loopback
+pub fn free_port() -> u16 {
+    let l = std::net::TcpListener::bind("127.0.0.1:0").unwrap();
+    l.local_addr().unwrap().port()
+}
+
+/// start a real listener (from its YAML, `bind` is added here) feeding the real dispatcher loop of `main`
+pub async fn start_listener(w: &World, yaml_without_bind: &str) -> u16 {
+    use crate::listeners::Listener;
+    for _ in 0..20 {
+        let port = free_port();
+        let yaml = format!("{}\nbind: 127.0.0.1:{}", yaml_without_bind, port);
+        let mut l = crate::listeners::from_value(&serde_yaml::from_str(&yaml).unwrap()).expect("listener config");
+        l.init().await.expect("listener init");
+        let l: Arc<dyn Listener> = l.into();
+        let (tx, mut rx) = tokio::sync::mpsc::channel(100);
+        if l.listen(w.state.clone(), tx).await.is_err() {
+            continue;
+        }
+        let st = w.state.clone();
+        tokio::spawn(async move {
+            while let Some(ctx) = rx.recv().await {
+                tokio::spawn(crate::process_request(ctx, st.clone()));
+            }
+        });
+        return port;
+    }
+    panic!("no free port");
+}
+
+/// raw client: connect, send each chunk (reading `expect_reply[i]` bytes after chunk i), half-close, read to EOF
+pub async fn raw_client(port: u16, chunks: &[(Vec<u8>, usize)], half_close: bool, wait_ms: u64) -> (Vec<Vec<u8>>, Vec<u8>, bool) {
+    use tokio::net::TcpStream;
+    let mut s = match TcpStream::connect(("127.0.0.1", port)).await {
+        Ok(s) => s,
+        Err(_) => return (vec![], vec![], false),
+    };
+    let mut interim = vec![];
+    for (c, n) in chunks {
+        let _ = s.write_all(c).await;
+        let mut buf = vec![0u8; *n];
+        if *n > 0 {
+            match tokio::time::timeout(std::time::Duration::from_millis(wait_ms), s.read_exact(&mut buf)).await {
+                Ok(Ok(_)) => interim.push(buf),
+                _ => {
+                    interim.push(vec![]);
+                    break;
+                }
+            }
+        }
+    }
+    if half_close {
+        let _ = s.shutdown().await;
+    }
+    let mut rest = vec![];
+    let eof = matches!(tokio::time::timeout(std::time::Duration::from_millis(wait_ms), s.read_to_end(&mut rest)).await, Ok(Ok(_)));
+    (interim, rest, eof)
 }
